@@ -63,7 +63,7 @@ func genC17(seed uint64, r *rng.Rand) *Plan {
 	if g.R.Chance(0.4) {
 		at = g.R.Range(1, 6)
 	}
-	scen := []string{"retry-later", "flaky-server", "fatal-forever", "never-online", "meta-silent", "meta-down", "zk-errors", "log-closed", "fatal-in-multi", "nsre-request-only", "mixed-batch", "meta-rows-bad"}[g.R.Intn(12)]
+	scen := []string{"retry-later", "flaky-server", "fatal-forever", "never-online", "meta-silent", "meta-down", "zk-errors", "log-closed", "fatal-in-multi", "nsre-request-only", "mixed-batch", "meta-rows-bad", "slow-dial-relayout"}[g.R.Intn(13)]
 	p.Scenario = scen
 	switch scen {
 	case "retry-later":
@@ -110,6 +110,29 @@ func genC17(seed uint64, r *rng.Rand) *Plan {
 				cls = hb.FatalClasses[g.R.Intn(len(hb.FatalClasses))]
 			}
 			p.Rules = append(p.Rules, &hb.Rule{Nonce: b.Batch[j].Nonce, Class: cls, Count: -1, Server: -1, Level: "action"})
+		}
+	case "slow-dial-relayout":
+		// connections take long to establish while the table's regions are
+		// split / merged / moved under the waiting requests: establishers give
+		// up dials for regions that died and start over for their successors
+		p.Faults = append(p.Faults, &Fault{On: "step", N: 1, Act: "dialdelay", Dur: []int{2000, 20000, 45000}[g.R.Intn(3)]})
+		for i, n := 0, g.R.Range(1, 3); i < n; i++ {
+			f := &Fault{On: "exec", N: g.R.Range(1, 5), Table: ts.Name, Region: g.R.Intn(4), Server: g.R.Intn(p.Layout.Servers), To: g.R.Intn(p.Layout.Servers)}
+			switch g.R.Intn(3) {
+			case 0:
+				f.Act, f.Key = "split", g.KeyNear(ts.Splits, 2)
+			case 1:
+				f.Act = "merge"
+			case 2:
+				f.Act = "move"
+			}
+			if g.R.Chance(0.5) {
+				f.On, f.N = "ms", g.R.Range(1, 60000)
+			}
+			p.Faults = append(p.Faults, f)
+		}
+		for len(p.Tasks) < 3 {
+			p.Tasks = append(p.Tasks, Task{Ops: []Op{g.SingleOp(ts.Name, g.KeyNear(ts.Splits, 2), []string{"get", "put", "inc"})}})
 		}
 	case "meta-rows-bad":
 		// hbase:meta answers, but what it says about the table's regions is unusable
@@ -167,7 +190,7 @@ func (w *World) checkC17() []Violation {
 	scen := w.Plan.Scenario
 	free := 0
 	switch scen {
-	case "flaky-server", "fatal-forever", "fatal-in-multi", "log-closed", "nsre-request-only", "never-online":
+	case "flaky-server", "fatal-forever", "fatal-in-multi", "log-closed", "nsre-request-only", "never-online", "slow-dial-relayout":
 		// a connection-level failure may be retried immediately at most twice;
 		// the same allowance is made for not-serving answers, whose retries wait
 		// for the re-establishment of the region instead
